@@ -4,7 +4,7 @@ import itertools
 
 from ..core import AnalysisError
 from ..cfront import strip, text
-from .. import ckern, ceval, xlayer, pyxread
+from .. import cq, pq, cnorm, ckern, ceval, xlayer, pyxread
 from ..ceval import CEval, find_all, loop_parts, body_stmts, loop_var, stores_to
 from ..formula import Canon, Ratio, Undecided, show, num, ExprBuilder
 from ..fneval import FnEval
@@ -33,60 +33,112 @@ def run(rep):
     rep.rule("R10.e", "dscore = (corrcoef(rank(obs), rank(forecast))[0,1] + 1) / 2 with argsort ranks")
     rep.assume("qsort places tied members of the two ensembles in an unspecified order (run-time behaviour of libc): mid-rank under ties is decided for the scan logic only")
     K = ckern.analyze(rep.repo)
-    fn = K["fns"].get("c_ensrank")
-    if fn is None:
+    if K["fns"].get("c_ensrank") is None:
         raise AnalysisError("stat/c_dscore.c: c_ensrank not found")
+    fn = ckern.normalised(K, "c_ensrank", rep.repo)
     file = fn["file"]
-    top = [s for s in fn["body"].get("inner", []) if s.get("kind")]
-    outer = [s for s in top if s.get("kind") == "ForStmt" and stores_to(s, "fmat")]
+    top = body_stmts(fn["body"])
+    outer = [s_ for s_ in top if s_.get("kind") == "ForStmt" and stores_to(s_, "fmat")]
     if len(outer) != 1:
         raise AnalysisError(f"{file}: c_ensrank pair loop not found")
-    i1 = loop_var(outer[0])
-    l2 = [s for s in body_stmts(loop_parts(outer[0])[3]) if s.get("kind") == "ForStmt"]
-    if len(l2) != 1:
+    outer = outer[0]
+    r1 = cq.loop_range(outer, cq.preceding(top, outer))
+    ostm = body_stmts(loop_parts(outer)[3])
+    l2 = [s_ for s_ in ostm if s_.get("kind") == "ForStmt"]
+    if len(l2) != 1 or r1 is None:
         raise AnalysisError(f"{file}: c_ensrank inner pair loop not found")
-    i2 = loop_var(l2[0])
-    init2 = text(loop_parts(l2[0])[0]).replace(" ", "")
-    rep.check(init2 == f"{i2}={i1}+1", "R10.b", file, "c_ensrank", "pairs (i1, i2) with i2 > i1: each pair compared once", f"inner loop starts `{init2}`", line=l2[0].get("_line"))
-    pstm = body_stmts(loop_parts(l2[0])[3])
-    inner = [s for s in pstm if s.get("kind") == "ForStmt"]
-    fill = [l for l in inner if stores_to(l, "ensemb") and not find_all(l, lambda n: n.get("kind") == "CompoundAssignOperator")]
-    scan = [l for l in inner if find_all(l, lambda n: n.get("kind") == "CompoundAssignOperator" and text(n["inner"][0]) == "sumrank")]
-    qs = [s for s in pstm if s.get("kind") == "CallExpr" and text(s["inner"][0]) == "qsort"]
-    if len(fill) != 1 or len(scan) != 1 or len(qs) != 1:
-        raise AnalysisError(f"{file}: c_ensrank pair body not recognised (fill {len(fill)}, scan {len(scan)}, qsort {len(qs)})")
-    fill, scan, qs = fill[0], scan[0], qs[0]
-    rep.unit(f"{file}: c_ensrank (pair loops, pooled fill, qsort, tie-block scan, F/u/ranks tail)")
+    l2 = l2[0]
+    r2 = cq.loop_range(l2, cq.preceding(ostm, l2))
+    if r2 is None:
+        raise AnalysisError(f"{file}: c_ensrank inner pair loop bounds not recognised")
+    i1, i2 = r1["var"], r2["var"]
+    rep.check(cq.range_is(r1, "0", "nval-1") and cq.same_expr(r2["lo"], f"{i1}+1") and cq.same_expr(r2["hi"], "nval-1"), "R10.b", file, "c_ensrank",
+              "pairs (i1, i2) with i2 > i1: each pair compared once", "", line=l2.get("_line"))
+    pstm = body_stmts(loop_parts(l2)[3])
+    qs = [s_ for s_ in pstm if s_.get("kind") == "CallExpr" and text(s_["inner"][0]) == "qsort"]
+    if len(qs) != 1:
+        raise AnalysisError(f"{file}: c_ensrank: qsort of the pooled block not found")
+    qs = qs[0]
+    pool = text(qs["inner"][1]).replace(" ", "")
+    pre_sort, post_sort = pstm[:pstm.index(qs)], pstm[pstm.index(qs) + 1:]
+    scan = [l for l in post_sort if l.get("kind") == "ForStmt" and find_all(l, lambda n: n.get("kind") == "CompoundAssignOperator")]
+    if len(scan) != 1:
+        raise AnalysisError(f"{file}: c_ensrank scan loop not found")
+    scan = scan[0]
+    rep.unit(f"{file}: c_ensrank (normalised: pair loops, pooled fill, qsort, tie-block scan, F/u/ranks tail)")
 
-    # ---- pooled fill
-    jv = loop_var(fill)
-    cn = Canon()
-    fcond = text(loop_parts(fill)[1]).replace(" ", "")
-    okf = fcond in (f"{jv}<2*ncol", f"{jv}<ncol*2")
-    for half, truth in (("first", True), ("second", False)):
-        ce = CEval(lambda c, truth=truth: truth if (c[0] == 'cmp' and show(c[2]) == jv and show(c[3]) == 'ncol' and c[1] == '<') else None)
-        ce.run(body_stmts(loop_parts(fill)[3]), {})
-        vals = [e for e in ce.effects if e.arr == "ensemb" and e.op == "=" and e.idx[0] == 'tuple' and e.idx[1][1] == num(0)]
-        ok = False
-        det = "no store to ensemb[j][0]"
-        if len(vals) == 1 and vals[0].val[0] == 'call' and vals[0].val[1] == 'A:sim':
-            got = cn.ratio(vals[0].val[2][0])
-            if truth:
-                want = cn.ratio(('add', ('mul', ('sym', 'ncol'), ('sym', i1)), ('sym', jv)))
-            else:   # member j - ncol of ensemble i2
-                want = cn.ratio(('add', ('mul', ('sym', 'ncol'), ('sym', i2)), ('sub', ('sym', jv), ('sym', 'ncol'))))
-            ok = got == want
-            det = f"reads sim[{got}], expected sim[{want}]"
-        rep.check(ok and okf, "R10.b", file, "c_ensrank", f"pooled block, {half} half holds ensemble {'i1' if truth else 'i2'} member by member", det, line=fill.get("_line"))
-        idxs = [e for e in ce.effects if e.arr == "ensemb" and e.idx[0] == 'tuple' and e.idx[1][1] == num(1)]
-        rep.check(len(idxs) == 1 and idxs[0].val == ('sym', jv), "R10.b", file, "c_ensrank", f"pooled block, {half} half: position tag = j (first ensemble iff tag < ncol)", "", line=fill.get("_line"))
-    qa = [text(a).replace(" ", "") for a in qs["inner"][1:]]
-    rep.check(qa[0] == "ensemb" and qa[1] in ("2*ncol", "ncol*2") and pstm.index(fill) < pstm.index(qs) < pstm.index(scan), "R10.b", file, "c_ensrank",
-              "pooled block of 2*ncol values sorted after the fill and before the scan", f"qsort({qa[0]}, {qa[1]}, ..)", line=qs.get("_line"))
+    # ---- pooled fill: every position p of the block holds member p of ensemble i1 (p < ncol) or member p - ncol of ensemble i2, tagged p
+    fce = cq.evaluate(pre_sort)
+    vals = [e for e in cq.stores(fce, pool) if e.op == "=" and e.idx[0] == 'tuple' and cq.same_expr(e.idx[1][1], "0")]
+    tags = [e for e in cq.stores(fce, pool) if e.op == "=" and e.idx[0] == 'tuple' and cq.same_expr(e.idx[1][1], "1")]
+    ranges = {}
+    for l in [x for x in pre_sort if x.get("kind") == "ForStmt"]:
+        lr_ = cq.loop_range(l, cq.preceding(pre_sort, l))
+        if lr_:
+            ranges[lr_["var"]] = lr_
+    halves = {}
+    det = []
+    for e in vals:
+        P = e.idx[1][0]
+        v = e.loops[-1] if e.loops else None
+        lr_ = ranges.get(v)
+        half = None
+        if cq.holds(e.conds, ('cmp', '<', P, ('sym', 'ncol')), True):
+            half = "first"
+        elif cq.excluded(e.conds, ('cmp', '<', P, ('sym', 'ncol')), True):
+            half = "second"
+        elif lr_ is not None and cq.range_is(lr_, "0", "ncol-1") and cq.same_expr(P, v):
+            half = "first"
+        elif lr_ is not None and cq.range_is(lr_, "0", "ncol-1") and cq.same_expr(P, f"ncol + {v}"):
+            half = "second"
+        if half is None or lr_ is None:
+            det.append(f"store at position {show(P)} not classified")
+            continue
+        want = ('call', 'A:sim', (cq.parse(f"ncol*{i1} + PP", {"PP": P}),)) if half == "first" else ('call', 'A:sim', (cq.parse(f"ncol*{i2} + PP - ncol", {"PP": P}),))
+        okv = cq.same_expr(e.val, want)
+        tg = [t for t in tags if cq.same_expr(t.idx[1][0], P) and [(show(c), tt) for c, tt in t.conds] == [(show(c), tt) for c, tt in e.conds][:len(t.conds)]]
+        okt = len(tg) >= 1 and all(cq.same_expr(t.val, P) for t in tg)
+        # coverage of the half by the loop range
+        if cq.same_expr(P, v):
+            cover = cq.range_is(lr_, "0", "2*ncol-1") or (half == "first" and cq.range_is(lr_, "0", "ncol-1"))
+        else:
+            cover = cq.range_is(lr_, "0", "ncol-1")
+        halves[half] = okv and okt and cover
+        det.append(f"{half}: value {'ok' if okv else show(e.val)[:60]}, tag {'ok' if okt else 'differs'}, coverage {cover}")
+    for half in ("first", "second"):
+        rep.check(halves.get(half, False), "R10.b", file, "c_ensrank", f"pooled block, {half} half holds ensemble {'i1' if half == 'first' else 'i2'} member by member, tagged with its position (first ensemble iff tag < ncol)",
+                  "; ".join(det)[:300], line=l2.get("_line"))
+    qa = qs["inner"][1:]
+    rep.check(cq.same_expr(qa[1], "2*ncol") and bool(vals), "R10.b", file, "c_ensrank", "pooled block of 2*ncol values sorted after the fill and before the scan", text(qa[1]), line=qs.get("_line"))
 
-    # ---- scan transducer
-    sv = loop_var(scan)
+    # ---- scan transducer: state (start, end, nties, sumrank), predicates P1 first-ensemble, P2 new value, P3 last of block, P4 block open
+    slr = cq.loop_range(scan, cq.preceding(post_sort, scan))
+    sv = slr["var"] if slr else loop_var(scan)
+    rep.check(cq.range_is(slr, "0", "2*ncol-1"), "R10.b", file, "c_ensrank", "scan visits the 2*ncol sorted values once", "", line=scan.get("_line"))
     sstm = body_stmts(loop_parts(scan)[3])
+    V = ('call', 'A:' + pool, (('tuple', (('sym', sv), num(0))),))
+    TAG = ('call', 'A:' + pool, (('tuple', (('sym', sv), num(1))),))
+    STATE = ("start", "end", "nties", "sumrank")
+    # the carried previous value: the scalar assigned the current value at the end of the body
+    plain = cq.evaluate(sstm, oracle=lambda c: True if "ncol" in show(c) and sv in show(c) and "A:" not in show(c) else None)
+    carried = set()
+    for env_, _c, how in plain.finals:
+        for k_, v_ in env_.items():
+            if "[" not in k_ and k_ not in STATE and cq.same_expr(v_, V):
+                carried.add(k_)
+    if len(carried) != 1:
+        raise AnalysisError(f"{file}: c_ensrank: previous-value variable of the scan not recognised ({sorted(carried)})")
+    VP = carried.pop()
+
+    def is_absdiff_with(e, other_is_prev):
+        if not (e[0] == 'call' and e[1] == 'abs' and len(e[2]) == 1 and e[2][0][0] == 'sub'):
+            return False
+        a, b = e[2][0][1], e[2][0][2]
+        for x, y in ((a, b), (b, a)):
+            if cq.same_expr(x, V):
+                isprev = y == ('sym', 'VP0')
+                return isprev if other_is_prev else (not isprev and not cq.same_expr(y, V))
+        return False
     nbad, ncomb = [], 0
     for P1, P2, P3, P4 in itertools.product([True, False], repeat=4):
         ncomb += 1
@@ -97,40 +149,47 @@ def run(rep):
                 return _bool(c, oracle)
             if c[0] != 'cmp':
                 return None
-            op, a, b = c[1], show(c[2]), show(c[3])
-            if a == "index" and b == "ncol":
+            op, a, b = c[1], c[2], c[3]
+            if op in ('>', '>=') and not (a[0] == 'call' and a[1] == 'abs') and (b[0] == 'call' and b[1] == 'abs'):
+                pass
+            if cq.same_expr(a, TAG) and cq.same_expr(b, "ncol"):
                 return {"<": P1, ">=": not P1}.get(op)
-            if a == "DIFF" and b == "eps":
+            if cq.same_expr(b, TAG) and cq.same_expr(a, "ncol"):
+                return {">": P1, "<=": not P1}.get(op)
+            if is_absdiff_with(a, True) and cq.same_expr(b, "eps"):
                 return {">=": P2, "<": not P2}.get(op)
-            if a == "DIFFNEXT" and b == "eps":
+            if is_absdiff_with(b, True) and cq.same_expr(a, "eps"):
+                return {"<=": P2, ">": not P2}.get(op)
+            if is_absdiff_with(a, False) and cq.same_expr(b, "eps"):
                 return {">=": P3, "<": not P3}.get(op)
-            if b in ("0", "0.0") and op == ">=":
-                if a == "S0":
+            if is_absdiff_with(b, False) and cq.same_expr(a, "eps"):
+                return {"<=": P3, ">": not P3}.get(op)
+            sa, sb = show(a), show(b)
+            if sb in ("0",) and op == ">=":
+                if sa == "S0":
                     return P4
-                if a == sv:
+                if sa == sv:
                     return True          # start = j >= 0
-                if a == "-1" or a == "-(1)":
+                if sa in ("-1", "-(1)"):
                     return False
-            # value bookkeeping comparisons (j < 2*ncol-1) do not matter for the state
+            if sb in ("0",) and op == "<" and sa == "S0":
+                return not P4
+            if sv in sa + sb and "ncol" in sa + sb and "A:" not in sa + sb:
+                return True              # not the last element: the next value exists
             return None
-        arrays = {"ensemb": lambda idx: ('sym', 'V' + show(idx))}
-        ce = CEval(oracle, arrays)
-        env = {"start": ('sym', 'S0'), "end": ('sym', 'E0'), "nties": ('sym', 'N0'), "sumrank": ('sym', 'R0'), "index": ('sym', 'index')}
-        # diff / diffnext are defined from |value - valueprev|: abstract them to symbols at their definition
-        BOOK = ("diff", "diffnext", "value", "valuenext", "valueprev", "index")
-        stm2 = []
-        for s in sstm:
-            asg = find_all(s, lambda n: n.get("kind") in ("BinaryOperator", "CompoundAssignOperator") and n.get("opcode") in ("=", "+=", "-=", "*=", "/="))
-            if asg and all(text(x["inner"][0]) in BOOK for x in asg):
-                continue          # value bookkeeping (abstracted by the predicates)
-            stm2.append(s)
-        env.update({"diff": ('sym', 'DIFF'), "diffnext": ('sym', 'DIFFNEXT')})
+        ce = CEval(oracle)
+        ce.summarise_loops = True
+        env = {"start": ('sym', 'S0'), "end": ('sym', 'E0'), "nties": ('sym', 'N0'), "sumrank": ('sym', 'R0'), VP: ('sym', 'VP0')}
         try:
-            ce._walk(stm2, env, [])
+            ce.run(sstm, env)
         except Undecided as ex:
             rep.undecided("R10.b", file, "c_ensrank", f"scan transducer {P1, P2, P3, P4}", str(ex), line=scan.get("_line"))
             continue
-        # reference
+        fins = [f_ for f_ in ce.finals if f_[2] in ("end", "ContinueStmt")]
+        if len(fins) != 1 or fins[0][1]:
+            nbad.append(f"{P1, P2, P3, P4}: undecided test {show(fins[0][1][0][0])[:80] if fins and fins[0][1] else len(fins)}")
+            continue
+        fenv = fins[0][0]
         S, E, N, R = (('sym', x) for x in ("S0", "E0", "N0", "R0"))
         J = ('sym', sv)
         open_ = P4
@@ -144,90 +203,108 @@ def run(rep):
         if open_ and P3:
             R = ('add', R, ('mul', ('add', num(1), ('div', ('add', S, E), num(2))), N))
             S = num(-1)
-        c2 = Canon()
-        same = all(c2.ratio(env[k]) == c2.ratio(w) for k, w in (("start", S), ("end", E), ("nties", N), ("sumrank", R)))
+        same = all(cq.same_expr(fenv.get(k_, ('sym', {"start": "S0", "end": "E0", "nties": "N0", "sumrank": "R0"}[k_])), w) for k_, w in (("start", S), ("end", E), ("nties", N), ("sumrank", R)))
+        same = same and cq.same_expr(fenv.get(VP, num(0)), V)
         if not same:
             nbad.append(f"first-ensemble={P1}, new-value={P2}, last-of-block={P3}, block-open={P4}: "
-                        f"start={show(env['start'])}, end={show(env['end'])}, nties={show(env['nties'])}, sumrank={show(env['sumrank'])[:60]}")
-    rep.check(not nbad, "R10.b", file, "c_ensrank", f"tie-block scan equals the mid-rank reference for all {ncomb} predicate assignments",
+                        f"start={show(fenv.get('start', S))}, end={show(fenv.get('end', E))}, nties={show(fenv.get('nties', N))}, sumrank={show(fenv.get('sumrank', R))[:60]}")
+    rep.check(not nbad, "R10.b", file, "c_ensrank", f"tie-block scan equals the mid-rank reference for all {ncomb} predicate assignments (tests compare |value - neighbour| with eps; the previous value is carried)",
               " | ".join(nbad[:3]), line=scan.get("_line"))
-    # definitions of diff / diffnext / index
-    defs = {}
-    for s in sstm:
-        if s.get("kind") == "BinaryOperator" and s.get("opcode") == "=":
-            defs[text(s["inner"][0])] = text(s["inner"][1]).replace(" ", "")
-    rep.check(defs.get("diff") == "fabs(value-valueprev)" and defs.get("diffnext") == "fabs(value-valuenext)", "R10.b", file, "c_ensrank",
-              "new-value / last-of-block tests compare |value - neighbour| with eps", f"diff={defs.get('diff')}, diffnext={defs.get('diffnext')}", line=scan.get("_line"))
-    rep.check(defs.get("index") == f"ensemb[{sv}][1]" and defs.get("value") == f"ensemb[{sv}][0]" and defs.get("valueprev") == "value", "R10.b", file, "c_ensrank",
-              "scan reads value and tag of pooled member j and remembers the previous value", str({k: defs.get(k) for k in ('index', 'value', 'valueprev')}), line=scan.get("_line"))
+    # state before the scan
+    ice = cq.evaluate(cq.preceding(post_sort, scan))
+    ienv = ice.finals[-1][0] if ice.finals else {}
+    rep.check(all(k_ in ienv for k_ in STATE) and cq.same_expr(ienv["sumrank"], "0") and cq.same_expr(ienv["start"], "-1") and cq.same_expr(ienv["nties"], "0"), "R10.b", file, "c_ensrank",
+              "scan starts with no open block and a zero rank sum", "", line=scan.get("_line"))
     # ---- tail: F, u, ranks
-    tail = pstm[pstm.index(scan) + 1:]
-    tce = CEval()
-    tenv = {"sumrank": ('sym', 'SR'), "ncold": ('sym', 'n')}
-    try:
-        tce._walk(tail, tenv, [])
-    except Undecided as ex:
-        rep.undecided("R10.b", file, "c_ensrank", "tail", str(ex), line=scan.get("_line"))
-    c3 = Canon()
-    wantF = c3.ratio(('div', ('sub', ('sym', 'SR'), ('div', ('mul', ('add', ('sym', 'n'), num(1)), ('sym', 'n')), num(2))), ('mul', ('sym', 'n'), ('sym', 'n'))))
-    gotF = [e for e in tce.effects if e.arr == "fmat"]
-    rep.check(len(gotF) == 1 and c3.ratio(gotF[0].val) == wantF, "R10.b", file, "c_ensrank", "F = (sumrank - n(n+1)/2) / n^2 (Weigel and Mason Eq 1)",
-              show(gotF[0].val)[:80] if gotF else "no store to fmat", line=scan.get("_line"))
-    if gotF:
-        rep.check(c3.ratio(gotF[0].idx) == c3.ratio(('add', ('mul', ('sym', i1), ('sym', 'nval')), ('sym', i2))), "R10.b", file, "c_ensrank", "F stored at fmat[i1, i2]", show(gotF[0].idx), line=scan.get("_line"))
-    u = tenv.get("u")
-    oku = False
-    if u is not None and u[0] == 'where':
-        # F < 0.5 - t ? 0 : F > 0.5 + t ? 1 : 0.5
+    tail = post_sort[post_sort.index(scan) + 1:]
+    n_ = "ncol"
+    FEXPR = f"(SR - ({n_} + 1)*{n_}/2)/({n_}*{n_})"
+    res = {}
+    for lab, lowt, hight in (("low", True, False), ("mid", False, False), ("high", False, True)):
+        def oracle(c, lowt=lowt, hight=hight):
+            if c[0] == 'cmp' and c[1] in ('<', '<=', '>', '>='):
+                a, b, op = c[2], c[3], c[1]
+                try:
+                    cn_ = Canon()
+                    fa = cn_.ratio(a) == cn_.ratio(cq.parse(FEXPR))
+                    fb = cn_.ratio(b) == cn_.ratio(cq.parse(FEXPR))
+                    other = b if fa else a if fb else None
+                    if other is None:
+                        return None
+                    thr = cn_.ratio(other)
+                    if not thr.is_const():
+                        return None
+                    if fb:
+                        op = {"<": ">", "<=": ">=", ">": "<", ">=": "<="}[op]
+                    t = float(thr.cval())
+                    if op in ('<', '<=') and t <= 0.5:
+                        return lowt
+                    if op in ('>', '>=') and t >= 0.5:
+                        return hight
+                    if op in ('>=',) and t <= 0.5:
+                        return not lowt
+                    if op in ('<=',) and t >= 0.5:
+                        return not hight
+                except Undecided:
+                    return None
+            if c[0] in ('and', 'or', 'not'):
+                from .c03 import _bool
+                return _bool(c, oracle)
+            return None
+        tce = CEval(oracle)
+        tce.summarise_loops = True
         try:
-            c1, a1, r1 = u[1], u[2], u[3]
-            oku = c1[0] == 'cmp' and c1[1] == '<' and a1 == num(0) and r1[0] == 'where' and r1[1][1] == '>' and r1[2] == num(1) and c3.ratio(r1[3]) == Ratio.const(0.5) \
-                and (c3.ratio(c1[3]) - Ratio.const(0.5)).is_const() and (c3.ratio(r1[1][3]) - Ratio.const(0.5)).is_const() \
-                and (c3.ratio(c1[3]) - Ratio.const(0.5)).cval() <= 0 <= (c3.ratio(r1[1][3]) - Ratio.const(0.5)).cval()
-        except Exception:
-            oku = False
-    rep.check(oku, "R10.b", file, "c_ensrank", "u = 0 / 0.5 / 1 for F below / at / above one half", show(u)[:90] if u else "u not assigned", line=scan.get("_line"))
-    rk = {show(e.idx): e for e in tce.effects if e.arr == "ranks" and e.op == "+="}
-    okr = set(rk) == {i1, i2} and rk[i1].val == tenv.get("u") and c3.ratio(rk[i2].val) == c3.ratio(('sub', num(1), ('sym', 'U'))) if False else \
-        (set(rk) == {i1, i2} and show(rk[i1].val) == show(tenv.get("u")) and show(rk[i2].val) == show(('sub', num(1), tenv.get("u"))))
-    rep.check(okr, "R10.b", file, "c_ensrank", "ranks[i1] += u, ranks[i2] += 1 - u", str({k: show(v.val)[:40] for k, v in rk.items()}), line=scan.get("_line"))
-    initl = [s_ for s_ in top if s_.get("kind") == "ForStmt" and s_ not in outer and stores_to(s_, "ranks")]
-    ok1 = False
-    if initl:
-        ice = CEval(lambda c: True)
-        ice.run(body_stmts(loop_parts(initl[0])[3]), {})
-        r1 = [e for e in ice.effects if e.arr == "ranks" and e.op == "="]
-        ok1 = len(r1) == 1 and r1[0].val == num(1)
-    rep.check(ok1, "R10.b", file, "c_ensrank", "ranks start at 1", "", line=fn["line"])
-    # ---- explicit flow: data values reach stores only through comparisons
-    tainted = {"value", "valueprev", "valuenext", "diff", "diffnext"}
-    leaks = []
-    for s in find_all(outer[0], lambda n: n.get("kind") in ("BinaryOperator", "CompoundAssignOperator") and n.get("opcode") in ("=", "+=", "-=", "*=", "/=")):
-        tgt = text(s["inner"][0])
-        base = tgt.split("[")[0]
-        if base in tainted or base == "ensemb":
+            tce.run(tail, {"sumrank": ('sym', 'SR')})
+        except Undecided as ex:
+            rep.undecided("R10.b", file, "c_ensrank", "tail", str(ex), line=scan.get("_line"))
             continue
-        rhs = s["inner"][1]
-        used = {n["referencedDecl"]["name"] for n in find_all(rhs, lambda n: n.get("kind") == "DeclRefExpr")}
-        # reads of ensemb[..][0] or sim
-        direct = find_all(rhs, lambda n: n.get("kind") == "ArraySubscriptExpr" and text(n).startswith(("sim[",)))
-        pooled = find_all(rhs, lambda n: n.get("kind") == "ArraySubscriptExpr" and text(n).startswith("ensemb[") and text(n).endswith("[0]"))
-        if (used & tainted) or direct or pooled:
-            leaks.append(f"line {s.get('_line')}: {tgt} = {text(rhs)[:40]}")
+        fins = [f_ for f_ in tce.finals if f_[2] == "end" and not f_[1]]
+        res[lab] = (tce, fins)
+    okF = oku = okr = len(res) == 3
+    for lab, want_u in (("low", "0"), ("mid", "0.5"), ("high", "1")):
+        if lab not in res:
+            continue
+        tce, fins = res[lab]
+        gotF = [e for e in tce.effects if e.arr == "fmat"]
+        okF = okF and len(gotF) == 1 and cq.same_expr(gotF[0].val, FEXPR) and cq.same_expr(gotF[0].idx, f"{i1}*nval + {i2}")
+        rk = {show(e.idx): e for e in tce.effects if e.arr == "ranks" and e.op == "+="}
+        okr = okr and set(rk) == {i1, i2} and cq.same_expr(rk[i1].val, want_u) and cq.same_expr(rk[i2].val, f"1 - {want_u}")
+        oku = oku and bool(fins)
+    rep.check(okF, "R10.b", file, "c_ensrank", "F = (sumrank - n(n+1)/2) / n^2 (Weigel and Mason Eq 1), stored at fmat[i1, i2]", "", line=scan.get("_line"))
+    rep.check(okr and oku, "R10.b", file, "c_ensrank", "u = 0 / 0.5 / 1 for F below / at / above one half; ranks[i1] += u, ranks[i2] += 1 - u", "", line=scan.get("_line"))
+    inice = cq.evaluate(cq.preceding(top, outer), oracle=lambda c: True if "nval" in show(c) and "ncol" not in show(c) else None)
+    r1s = [e for e in cq.stores(inice, "ranks") if e.op == "=" and cq.same_expr(e.val, "1") and e.loops]
+    ok1 = False
+    for e in r1s:
+        l_ = [x for x in cq.preceding(top, outer) if x.get("kind") == "ForStmt" and loop_var(x) == e.loops[-1]]
+        lr_ = cq.loop_range(l_[0], ()) if l_ else None
+        if lr_ and cq.same_expr(e.idx, lr_["var"]) and cq.same_expr(lr_["lo"], "0"):
+            ok1 = True
+    rep.check(ok1, "R10.b", file, "c_ensrank", "ranks start at 1", "", line=fn["line"])
+    # ---- explicit flow: forecast values reach stores other than the pooled block only through comparisons
+    leaks = []
+    for e in cq.evaluate(pstm).effects:
+        if e.arr == pool or e.arr.startswith("call:"):
+            continue
+        if e.val is not None and isinstance(e.val, tuple) and (pq.mentions(e.val, lambda x: x[0] == 'call' and x[1] in ('A:sim',)) or
+                                                                pq.mentions(e.val, lambda x: x[0] == 'call' and x[1] == 'A:' + pool and x[2][0][0] == 'tuple' and cq.same_expr(x[2][0][1][1], "0"))):
+            leaks.append(f"line {e.line}: {e.arr}[{show(e.idx)}] {e.op} {show(e.val)[:50]}")
     rep.check(not leaks, "R10.b", file, "c_ensrank", "forecast values flow into ranks / F only through comparisons (invariance under increasing re-scaling)",
-              "; ".join(leaks), line=outer[0].get("_line"))
+              "; ".join(leaks), line=outer.get("_line"))
 
     # ---------------- wrapper: dscore ----------------------------------------------------------------------------------------
     P = pyxread.load_all(rep.repo)
     shims = {cm: {sh.name: sh for sh in d["shims"]} for cm, d in P.items()}
     sites, _ = xlayer.find_sites(rep.repo, shims)
+    ens_site = None
     for shim, fname in (("ensrank", "dscore"), ("ad_test", "anderson_darling_test")):
-        st = [s for s in sites if s.shim.name == shim and s.func.name == fname]
+        st = [s_ for s_ in sites if s_.shim.name == shim and s_.func.name == fname]
         if len(st) != 1:
             raise AnalysisError(f"stat/metrics.py: call site of {shim} in {fname} not found")
         ok, how, _ = xlayer.error_discipline(st[0])
         rep.check(ok, "R10.a", "stat/metrics.py", fname, f"{shim} return code tested and raised", how, line=st[0].call.lineno)
         if shim == "ensrank":
+            ens_site = st[0]
             for pn in ("fmat", "ranks"):
                 v = st[0].args.get(pn)
                 rep.check(v is not None and v[1].fresh and v[1].init == ("zeros",), "R10.b", "stat/metrics.py", fname, f"`{pn}` is a fresh zero array", "", line=st[0].call.lineno)
@@ -237,155 +314,142 @@ def run(rep):
                       f"argument `{ast.unparse(v[0]) if v else '?'}` is not a fresh buffer", line=st[0].call.lineno)
     mod = Mod(rep.repo, "stat/metrics.py")
     ds = mod.func("dscore")
-    fe = FnEval(lambda d, env: None, lambda e, env, b: None)
-    paths = fe.run(ds, {a.arg: ('sym', a.arg) for a in ds.args.args})
+    dpaths, _b = pq.site_paths(ens_site)
     nd = 0
-    for p in paths:
-        if p.value == ('raise',) or p.value == ('sym', 'None'):
+    for p_ in dpaths:
+        if p_.how != "return":
             continue
-        single = any(show(c) .startswith("(") and "==" in show(c) and t for c, t in p.conds if "getitem" in show(c) or "nens" in show(c))
-        c5 = Canon()
-        obs_r = ('call', 'argsort', (('call', 'argsort', (('sym', 'obs'),)),))
-        try:
-            got = c5.ratio(p.value)
-        except Undecided as ex:
-            rep.undecided("R10.e", "stat/metrics.py", "dscore", "returned formula", str(ex), line=p.line)
-            continue
-        ok = False
-        for fr in (('call', 'argsort', (('call', 'argsort', (('call', 'getitem', (('sym', 'sim'), ('sym', 'col0'))),)),)), ('sym', '?fr')):
-            pass
-        txt = show(p.value).replace(" ", "")
-        ok = txt.startswith("((getitem[(0,1)](corrcoef(argsort(argsort(obs)),") and txt.endswith("))+1)/2)")
+        v = p_.value
         nd += 1
-        rep.check(ok, "R10.e", "stat/metrics.py", "dscore", f"D = (corrcoef(rank(obs), rank(forecast))[0,1] + 1)/2 [{'single member' if 'argsort(argsort(?' in txt or 'sim' in txt.split('corrcoef')[1] else 'ensemble'}]",
-                  txt[:120], line=p.line)
+        ok, kind = False, "?"
+        if v[0] == 'div' and pq.same(v[2], "2") and v[1][0] == 'add':
+            parts = [v[1][1], v[1][2]]
+            cc = [x for x in parts if pq.call_named(x, "getitem") and pq.call_named(x[2][0], "corrcoef")]
+            one = [x for x in parts if pq.same(x, "1")]
+            if len(cc) == 1 and len(one) == 1 and pq.same(cc[0][2][1], "(0, 1)"):
+                a_, b_ = cc[0][2][0][2][0], cc[0][2][0][2][1]
+                def is_rank_of(e, name):
+                    return pq.call_named(e, "argsort") and pq.call_named(e[2][0], "argsort") and pq.mentions(e[2][0][2][0], lambda x: x == ('sym', name))
+                okobs = is_rank_of(a_, "obs") and not pq.mentions(a_, lambda x: x == ('sym', 'sim'))
+                if b_ == ('sym', 'K.ranks'):
+                    kind, ok = "ensemble", okobs
+                else:
+                    kind = "single member"
+                    ok = okobs and is_rank_of(b_, "sim") and pq.mentions(b_, lambda x: pq.call_named(x, "getitem") and isinstance(x[2][1], tuple) and x[2][1][0] == 'tuple' and pq.same(x[2][1][1][1], "0"))
+        rep.check(ok, "R10.e", "stat/metrics.py", "dscore", f"D = (corrcoef(rank(obs), rank(forecast))[0,1] + 1)/2 with argsort(argsort(.)) ranks [{kind}]", show(v)[:140], line=p_.line)
     rep.floor("dscore return paths", nd, 2)
-    # single-member ranks = argsort(argsort(sim[:, 0]))
-    sm = [n for n in ast.walk(ds) if isinstance(n, ast.Assign) and isinstance(n.targets[0], ast.Name) and n.targets[0].id == "franks" and "argsort" in ast.unparse(n.value)]
-    rep.check(bool(sm) and ast.unparse(sm[0].value).replace(" ", "") == "np.argsort(np.argsort(sim[:,0]))", "R10.e", "stat/metrics.py", "dscore",
-              "single-member forecasts ranked by argsort(argsort(sim[:, 0]))", ast.unparse(sm[0].value) if sm else "", line=ds.lineno)
 
     # ---------------- PIT -----------------------------------------------------------------------------------------------------------------
     pf = mod.func("pit")
-    src = {}
-    for n in ast.walk(pf):
-        if isinstance(n, ast.Assign) and isinstance(n.targets[0], ast.Name):
-            src.setdefault(n.targets[0].id, []).append(n)
-    okcap = "cst" in src and ast.unparse(src["cst"][0].value).replace(" ", "") in ("min(0.5,cst)", "min(cst,0.5)")
-    rep.check(okcap, "R10.c", "stat/metrics.py", "pit", "cst capped at 1/2 before use", "", line=pf.lineno)
-    b = ExprBuilder(lambda d, env: ('sym', 'EPS') if d == "EPS" else None, None)
-    rnd = [n for n in src.get("pits", []) if "cst" in ast.unparse(n.value)]
-    okp = False
-    det = "random-branch formula not found"
-    if rnd:
-        env = {"cst": ('sym', 'cst'), "nens": ('sym', 'nens'), "pits": ('sym', 'COUNTS')}
-        try:
-            e = b.build(rnd[0].value, env)
-            c6 = Canon()
-            got = c6.ratio(e)
-            cnt = c6.ratio(('call', 'sum', (('sym', 'COUNTS'), num(1))))
-            # closed form in the count
-            cs = [s_ for s_ in got.n.symbols() if s_.startswith("⟨sum")]
-            if len(cs) == 1:
-                K_ = Ratio.sym(cs[0])
-                want = (K_ + Ratio.const(0.5) - Ratio.sym('cst')) / (Ratio.sym('nens') + 1 - Ratio.sym('cst'))
-                okp = got == want
-                det = f"{got}"
-                # range proof with cst = 1/2 - d (d >= 0), count = k >= 0, nens - count = m >= 0
-                from ..poly import Poly
-                sub = lambda r: Ratio(r.n.subst(cs[0], Poly.sym('k')).subst('cst', Poly.const(0.5) - Poly.sym('d')).subst('nens', Poly.sym('k') + Poly.sym('m')),
-                                      r.d.subst(cs[0], Poly.sym('k')).subst('cst', Poly.const(0.5) - Poly.sym('d')).subst('nens', Poly.sym('k') + Poly.sym('m')))
-                lo_ok = nonneg_ratio(sub(got), {"k", "d", "m"})
-                hi_ok = nonneg_ratio(sub(Ratio.const(1) - got), {"k", "d", "m"})
-                rep.check(lo_ok and hi_ok, "R10.c", "stat/metrics.py", "pit", "0 <= PIT <= 1 for every count in [0, nens] and cst <= 1/2",
-                          f"PIT = {sub(got)}, 1 - PIT = {sub(Ratio.const(1) - got)}", line=rnd[0].lineno)
-                # strictly increasing in the count: d PIT / d k = 1/(nens + 1 - cst) > 0
-                inc = sub(Ratio(got.n.subst(cs[0], Poly.sym(cs[0]) + 1), got.d.subst(cs[0], Poly.sym(cs[0]) + 1)) - got)
-                rep.check(positive_ratio(inc, {"k", "d", "m"}) or nonneg_ratio(inc, {"k", "d", "m"}) and not inc.is_zero(), "R10.c", "stat/metrics.py", "pit",
-                          "PIT strictly increasing in the number of members below the observation", f"increment {inc}", line=rnd[0].lineno)
-        except Undecided as ex:
-            det = str(ex)
-    rep.check(okp, "R10.c", "stat/metrics.py", "pit", "PIT = (count + 1/2 - cst) / (nens + 1 - cst)", det, line=rnd[0].lineno if rnd else pf.lineno)
-    cntdef = [n for n in src.get("pits", []) if "astype" in ast.unparse(n.value) and "<" in ast.unparse(n.value)]
-    okc = bool(cntdef) and ast.unparse(cntdef[0].value).replace(" ", "") in ("(ens+dens-(obs+dobs)[:,None]<0).astype(int)",)
-    rep.check(okc, "R10.c", "stat/metrics.py", "pit", "count = number of (jittered) members strictly below the (jittered) observation", ast.unparse(cntdef[0].value) if cntdef else "", line=pf.lineno)
-    # pseudo flag
-    idx = src.get("idx", [])
-    okf = False
-    if idx:
-        try:
-            e = b.build(idx[0].value, {"obs": ('sym', 'obs'), "ens": ('sym', 'ens'), "censor": ('sym', 'c')})
-            ref = b.build(ast.parse("(obs < c + EPS) & (np.sum(ens < c + EPS, axis=1) > 0)", mode="eval").body, {"obs": ('sym', 'obs'), "ens": ('sym', 'ens'), "c": ('sym', 'c')})
-            c7 = Canon()
-            okf = c7.ratio(e) == c7.ratio(ref) or c7.ratio(e) == c7.ratio(('and', ref[2], ref[1]))
-        except Undecided:
-            okf = False
-    rep.check(okf, "R10.c", "stat/metrics.py", "pit", "pseudo flag = (obs < censor+EPS) & (at least one member < censor+EPS)", ast.unparse(idx[0].value) if idx else "", line=pf.lineno)
-    flagset = any(isinstance(n, ast.Assign) and isinstance(n.targets[0], ast.Subscript) and ast.unparse(n.targets[0]) == "is_sudo[idx]" and const_value(n.value) is True for n in ast.walk(pf))
-    rep.check(flagset, "R10.c", "stat/metrics.py", "pit", "flag raised exactly on that mask (zeros elsewhere)", "", line=pf.lineno)
+
+    def resolve(e, env, b):
+        d = dotted(e.func)
+        if d in ("__check_ensemble_data",) and len(e.args) == 2:
+            return ('tuple', (('sym', 'OBS'), ('sym', 'ENS'), ('sym', 'nforc'), ('sym', 'nens')))
+        return None
+    ppaths = [p_ for p_ in pq.PEval(resolve).run(pf) if p_.how == "return"]
+    rnd = [p_ for p_ in ppaths if any(t and c == ('sym', 'random') for c, t in p_.conds)]
+    okp, det = False, "random-branch path not found"
+    CST = "min(0.5, cst)"
+    if len(rnd) == 1 and rnd[0].value[0] == 'tuple':
+        pits = rnd[0].value[1][0]
+        cnts = pq.find(pits, lambda e: pq.call_named(e, "sum") and pq.mentions(e, lambda x: x[0] == 'cmp'))
+        if cnts:
+            CNT = cnts[0]
+            want = ('div', ('sub', ('add', CNT, num(0.5)), pq.parse(CST)), pq.parse(f"1 - {CST} + nens"))
+            okp = pq.same(pits, want)
+            det = show(pits)[:160]
+            cnt_arg = CNT[2][0]
+            while pq.call_named(cnt_arg, "astype"):
+                cnt_arg = cnt_arg[2][0]
+            okc = cnt_arg[0] == 'cmp' and cnt_arg[1] == '<' and pq.same(cnt_arg[3], "0")
+            if okc:
+                d_ = cnt_arg[2]
+                okc = d_[0] == 'sub' and pq.mentions(d_[1], lambda x: x == ('sym', 'ENS')) and pq.mentions(d_[2], lambda x: x == ('sym', 'OBS')) and \
+                    not pq.mentions(d_[1], lambda x: x == ('sym', 'OBS')) and pq.kw_of(CNT, "axis") is not None and pq.same(pq.kw_of(CNT, "axis"), "1")
+            rep.check(bool(okc), "R10.c", "stat/metrics.py", "pit", "count = number of (jittered) members strictly below the (jittered) observation, per forecast", show(cnt_arg)[:140], line=pf.lineno)
+            # range / monotonicity on the closed form (k = count, m = nens - count >= 0, cst = 1/2 - d with d >= 0 after the cap)
+            k, m, d = Ratio.sym('k'), Ratio.sym('m'), Ratio.sym('d')
+            cst = Ratio.const(0.5) - d
+            form = lambda kk: (kk + Ratio.const(0.5) - cst) / (Ratio.const(1) - cst + kk + m)
+            lo_ok = nonneg_ratio(form(k), {"k", "d", "m"})
+            hi_ok = nonneg_ratio(Ratio.const(1) - form(k), {"k", "d", "m"})
+            rep.check(okp and lo_ok and hi_ok, "R10.c", "stat/metrics.py", "pit", "0 <= PIT <= 1 for every count in [0, nens] and cst <= 1/2",
+                      f"PIT = {form(k)}, 1 - PIT = {Ratio.const(1) - form(k)}", line=pf.lineno)
+            nd_ = Ratio.sym('N')        # nens fixed: increment in the count
+            inc = (k + 1 + Ratio.const(0.5) - cst) / (Ratio.const(1) - cst + nd_) - (k + Ratio.const(0.5) - cst) / (Ratio.const(1) - cst + nd_)
+            rep.check(okp and positive_ratio(inc, {"k", "d", "N"}), "R10.c", "stat/metrics.py", "pit", "PIT strictly increasing in the number of members below the observation", f"increment {inc}", line=pf.lineno)
+    rep.check(okp, "R10.c", "stat/metrics.py", "pit", "PIT = (count + 1/2 - cst) / (nens + 1 - cst) with cst capped at 1/2", det, line=pf.lineno)
+    okf = bool(ppaths)
+    MASK = "(OBS < censor + EPS) & np.any(ENS < censor + EPS, axis=1)"
+    for p_ in ppaths:
+        fl = p_.value[1][1] if p_.value[0] == 'tuple' and len(p_.value[1]) == 2 else None
+        ok1 = fl is not None and pq.call_named(fl, "setitem") and pq.same(fl[2][1], MASK) and pq.same(fl[2][2], "True") and \
+            (pq.call_named(fl[2][0], "zeros") or (pq.call_named(fl[2][0], "astype") and pq.call_named(fl[2][0][2][0], "zeros")) or
+             (pq.call_named(fl[2][0], "full") and pq.same(fl[2][0][2][1], "False")))
+        okf = okf and ok1
+    rep.check(okf, "R10.c", "stat/metrics.py", "pit", "pseudo flag = (obs < censor+EPS) & (at least one member < censor+EPS), raised exactly on that mask (zeros elsewhere)", "", line=pf.lineno)
 
     # ---------------- Cramer-von Mises / Anderson-Darling -------------------------------------------------------------------------------------
     cv = mod.func("cramer_von_mises_test")
-    fe2 = FnEval(lambda d, env: ('sym', d) if d.startswith("CVM_") else (('sym', 'n') if d == "data.shape" else None), None)
-    okcv, det = False, ""
-    for n in ast.walk(cv):
-        if isinstance(n, ast.Assign) and isinstance(n.targets[0], ast.Name) and n.targets[0].id == "cvstat":
-            env = {"data": ('sym', 'data'), "nsample": ('sym', 'n')}
-            for m in cv.body:
-                if isinstance(m, ast.Assign) and isinstance(m.targets[0], ast.Name) and m.targets[0].id == "unif":
-                    env["unif"] = b.build(m.value, env)
-            try:
-                got = Canon()
-                g = got.ratio(b.build(n.value, env))
-                w = got.ratio(b.build(ast.parse("1/(12*n) + np.sum(((2*np.arange(1, n+1) - 1)/(2*n) - np.sort(data))**2)", mode="eval").body, {"n": ('sym', 'n'), "data": ('sym', 'data')}))
-                okcv = g == w
-                det = f"{g}"
-            except Undecided as ex:
-                det = str(ex)
-    rep.check(okcv, "R10.d", "stat/metrics.py", "cramer_von_mises_test", "W2 = 1/(12n) + sum(((2i-1)/(2n) - x_(i))^2) on the sorted sample", det[:120], line=cv.lineno)
-    ns = [m for m in cv.body if isinstance(m, ast.Assign) and isinstance(m.targets[0], ast.Name) and m.targets[0].id == "nsample"]
-    rep.check(bool(ns) and ast.unparse(ns[0].value).replace(" ", "") in ("data.shape[0]", "len(data)"), "R10.d", "stat/metrics.py", "cramer_von_mises_test", "n = sample size", "", line=cv.lineno)
-    ad = K["fns"].get("ADtest")
-    adt = K["fns"].get("c_ad_test")
-    if ad is None or adt is None:
+    cr = [p_ for p_ in pq.PEval().run(cv) if p_.how == "return"]
+    okcv = bool(cr)
+    for p_ in cr:
+        st = p_.value[1][0] if p_.value[0] == 'tuple' else p_.value
+        okcv = okcv and pq.same(st, "1/(12*len(data)) + np.sum(((2*np.arange(1, len(data)+1) - 1)/(2*len(data)) - np.sort(data))**2)", values=True)
+    rep.check(okcv, "R10.d", "stat/metrics.py", "cramer_von_mises_test", "W2 = 1/(12n) + sum(((2i-1)/(2n) - x_(i))^2) on the sorted sample, n = sample size",
+              show(cr[0].value)[:160] if cr else "", line=cv.lineno)
+    if K["fns"].get("ADtest") is None or K["fns"].get("c_ad_test") is None:
         raise AnalysisError("stat/AnDarl.c / c_andersondarling.c: ADtest / c_ad_test not found")
-    lp = [s for s in ad["body"].get("inner", []) if s.get("kind") == "ForStmt"]
+    ad = ckern.normalised(K, "ADtest", rep.repo)
+    atop = body_stmts(ad["body"])
+    lp = [s_ for s_ in atop if s_.get("kind") == "ForStmt"]
     if len(lp) != 1:
         raise AnalysisError("stat/AnDarl.c: ADtest loop not found")
-    av = loop_var(lp[0])
+    alr = cq.loop_range(lp[0], cq.preceding(atop, lp[0]))
+    av = alr["var"] if alr else loop_var(lp[0])
     astm = body_stmts(loop_parts(lp[0])[3])
-    guards, logpos = [], None
-    for k, s in enumerate(astm):
-        if s.get("kind") == "IfStmt" and find_all(s, lambda n: n.get("kind") == "ReturnStmt"):
-            guards.append((k, text(s["inner"][0]).replace(" ", "")))
-        if find_all(s, lambda n: n.get("kind") == "CallExpr" and text(n["inner"][0]) == "log") and logpos is None:
-            logpos = k
-    gtxt = " ".join(g for _, g in guards)
-    has_range = f"x[{av}]<0" in gtxt and f"x[{av}]>1" in gtxt
-    has_nan = f"isnan(x[{av}])" in gtxt or f"__builtin_isnan(x[{av}])" in gtxt or "isnan" in gtxt
-    has_order = f"x[{av}]<prev" in gtxt
-    dom = logpos is not None and all(k < logpos for k, _ in guards) and len(guards) >= 3
-    rep.check(has_range and dom, "R10.d", ad["file"], "ADtest", "values outside [0, 1] rejected before the logarithm", gtxt, line=lp[0].get("_line"))
-    rep.check(has_nan and dom, "R10.d", ad["file"], "ADtest", "NaN rejected before the logarithm", gtxt, line=lp[0].get("_line"))
-    rep.check(has_order and dom, "R10.d", ad["file"], "ADtest", "unsorted data rejected", gtxt, line=lp[0].get("_line"))
-    ace = CEval(lambda c: False)
-    aenv = {"z": ('sym', 'Z0')}
-    try:
-        ace._walk(astm, aenv, [])
-        c8 = Canon()
-        inc = c8.ratio(('sub', aenv["z"], ('sym', 'Z0')))
-        xi = ('call', 'A:x', (('sym', av),))
-        xm = ('call', 'A:x', (('sub', ('sub', ('sym', 'n'), num(1)), ('sym', av)),))
-        want = c8.ratio(('neg', ('mul', ('add', ('mul', num(2), ('sym', av)), num(1)), ('call', 'log', (('mul', xi, ('sub', num(1), xm)),)))))
-        rep.check(inc == want, "R10.d", ad["file"], "ADtest", "z -= (2i+1) log(x_i (1 - x_{n-1-i}))", f"{inc}", line=lp[0].get("_line"))
-    except Undecided as ex:
-        rep.undecided("R10.d", ad["file"], "ADtest", "statistic accumulation", str(ex), line=lp[0].get("_line"))
-    st = [s for s in ad["body"].get("inner", []) if s.get("kind") == "BinaryOperator" and text(s["inner"][0]) == "outputs[0]" and "z" in text(s["inner"][1])]
-    rep.check(bool(st) and text(st[0]["inner"][1]).replace(" ", "") in ("-n+z/n", "z/n-n"), "R10.d", ad["file"], "ADtest", "A2 = -n + z/n", text(st[0]["inner"][1]) if st else "", line=ad["line"])
-    body = [s for s in adt["body"].get("inner", []) if s.get("kind")]
-    q = [k for k, s in enumerate(body) if find_all(s, lambda n: n.get("kind") == "CallExpr" and text(n["inner"][0]) == "qsort")]
-    c = [k for k, s in enumerate(body) if find_all(s, lambda n: n.get("kind") == "CallExpr" and text(n["inner"][0]) == "ADtest")]
-    rep.check(bool(q) and bool(c) and q[0] < c[0], "R10.d", adt["file"], "c_ad_test", "data sorted before the statistic is computed (result independent of the input order)", "", line=adt["line"])
+    ace = cq.evaluate(astm)
+    errs = [r for r in ace.returns if isinstance(r[0], tuple) and not cq.same_expr(r[0], "0")]
+    X = f"x[{av}]"
+    zs = [(env_, conds) for env_, conds, how in ace.finals if how == "end"]
+    # the accumulator: the scalar whose update contains the logarithm
+    acc = None
+    for env_, conds in zs:
+        for k_, v_ in env_.items():
+            if "[" not in k_ and pq.mentions(v_, lambda e: e[0] == 'call' and e[1] == 'log'):
+                acc = k_
+    okguard = acc is not None and all(cq.excluded(c_, f"{X} < 0 || {X} > 1", False) and any((not t) and cq.cond_atoms(c, False) == ('isnan', repr(Canon().ratio(cq.parse(X)))) for c, t in c_)
+                                      for _e, c_ in zs)
+    prevs = set()
+    for env_, conds in zs:
+        for k_, v_ in env_.items():
+            if "[" not in k_ and k_ != acc and cq.same_expr(v_, X):
+                prevs.add(k_)
+    okorder = len(prevs) == 1 and all(cq.excluded(c_, f"{X} < {list(prevs)[0]}", False) for _e, c_ in zs) if prevs else False
+    rep.check(okguard and len(errs) >= 2, "R10.d", ad["file"], "ADtest", "values outside [0, 1] and NaN rejected before the logarithm", f"{len(errs)} error returns", line=lp[0].get("_line"))
+    rep.check(okorder, "R10.d", ad["file"], "ADtest", "unsorted data rejected", "", line=lp[0].get("_line"))
+    okz = False
+    if acc is not None:
+        ce2 = CEval(lambda c: False)
+        ce2.summarise_loops = True
+        ce2.run(astm, {acc: ('sym', 'Z0')})
+        fin = [f_ for f_ in ce2.finals if f_[2] == "end"]
+        okz = bool(fin) and cq.same_expr(fin[-1][0].get(acc, num(0)), f"Z0 - (2*{av} + 1)*log({X}*(1 - x[n - 1 - {av}]))")
+    rep.check(okz and cq.range_is(alr, "0", "n-1"), "R10.d", ad["file"], "ADtest", "z -= (2i+1) log(x_i (1 - x_{n-1-i})) for i = 0..n-1", "", line=lp[0].get("_line"))
+    post = cq.evaluate(atop[atop.index(lp[0]) + 1:])
+    o0 = [e for e in cq.stores(post, "outputs") if cq.same_expr(e.idx, "0")]
+    rep.check(acc is not None and len(o0) == 1 and cq.same_expr(o0[0].val, f"-n + {acc}/n"), "R10.d", ad["file"], "ADtest", "A2 = -n + z/n", show(o0[0].val) if o0 else "", line=ad["line"])
+    adt = ckern.normalised(K, "c_ad_test", rep.repo)
+    tce = cq.evaluate(body_stmts(adt["body"]))
+    qcall = cq.calls(tce, "qsort")
+    okq = len(qcall) == 1 and cq.same_expr(qcall[0].val[0], "unifdata") and cq.same_expr(qcall[0].val[1], "nval") and \
+        any(isinstance(r[0], tuple) and "ADtest" in show(r[0]) for r in tce.returns) or bool(cq.calls(tce, "ADtest"))
+    # the statistic is computed after the sort: the call of ADtest comes later in the statement order
+    body = body_stmts(adt["body"])
+    qpos = [k_ for k_, s_ in enumerate(body) if find_all(s_, lambda n: n.get("kind") == "CallExpr" and text(n["inner"][0]) == "qsort")]
+    cpos = [k_ for k_, s_ in enumerate(body) if find_all(s_, lambda n: n.get("kind") == "CallExpr" and text(n["inner"][0]) == "ADtest")]
+    rep.check(bool(okq) and bool(qpos) and bool(cpos) and qpos[0] < cpos[0], "R10.d", adt["file"], "c_ad_test", "data sorted before the statistic is computed (result independent of the input order)", "", line=adt["line"])
     return EXPLANATION
 
 
